@@ -261,6 +261,27 @@ fn preserving(prog: &Value, rng: &mut Rng, max: usize) -> Vec<(String, Value)> {
         expr_kinds.contains(&n["k"].as_str().unwrap_or("")) && n.get("ty").is_some() && !matches!(p.last(), Some(P::K(k)) if k == "a" || k == "b") && !p.iter().any(|x| matches!(x, P::K(k) if k == "acc" || k == "consts"))
     }).collect();
     let mut out = vec![];
+    // statement lists (blocks, loop bodies): a value that is computed and discarded (`1u8;`) before the first statement changes nothing
+    {
+        let mut all = vec![];
+        walk_paths(prog, &mut vec![], &mut all);
+        let lists: Vec<Vec<P>> = all.into_iter().filter_map(|p| {
+            let n = get_path(prog, &p);
+            let key = match n["k"].as_str().unwrap_or("") { "block" => "ss", "for" | "forjoin" => "body", _ => return None };
+            if n[key].as_array().map(|a| a.is_empty()).unwrap_or(true) { return None; }
+            let mut q = p.clone(); q.push(P::K(key.to_string())); Some(q)
+        }).collect();
+        for _ in 0..(max / 4).max(1) {
+            if lists.is_empty() { break; }
+            let lp = &lists[rng.below(lists.len())];
+            let z = json!([0, 0, 0, 0]);
+            let mut ss = get_path(prog, lp).as_array().cloned().unwrap_or_default();
+            ss.insert(0, json!({"k":"expr","e":{"k":"num","v":1,"ty":{"k":"int","t":"u8"},"m":z},"m":z}));
+            let mut mprog = prog.clone();
+            set_path(&mut mprog, lp, Value::Array(ss));
+            out.push(("keep-discarded-value".to_string(), mprog));
+        }
+    }
     if sites.is_empty() { return out; }
     for _ in 0..max {
         let path = &sites[rng.below(sites.len())];
